@@ -145,6 +145,43 @@ Proof.
   rewrite Hn. rewrite (normal_engine_rewrap fhex fstr d subs _ b b' Ht). reflexivity.
 Qed.
 
+(* when the substitutions fire on no line of either wrapping (no decimal comma, no run-on
+   hyphen or double dot: C02_sub_identity reduces that to "no regex match"), the recommended
+   substitutions are irrelevant and only the reshape width has to agree *)
+Lemma toks_subs_irrelevant d subs subs' raw :
+  apply_subs subs (strip raw) = strip raw -> apply_subs subs' (strip raw) = strip raw ->
+  toks d subs raw = toks d subs' raw.
+Proof. intros H H'. unfold toks. rewrite H, H'. reflexivity. Qed.
+
+Lemma normal_engine_items2 d subs subs' n a b :
+  normal_items d subs a = normal_items d subs' b ->
+  normal_engine fhex fstr d subs n a = normal_engine fhex fstr d subs' n b.
+Proof. intros H. unfold normal_engine. rewrite H. reflexivity. Qed.
+
+Theorem data_core_rewrap_clean o pw pn d b b' cs wd :
+  hval_is_str pw (s2l "YES") = true ->
+  (forall raw subs, In raw (b ++ b') -> apply_subs subs (strip raw) = strip raw) ->
+  n_columns_of (fst (inspect_twice d b (match d with DComma => comma_delim_subs | _ => default_subs end)))
+               (List.length (s_items cs)) wd =
+  n_columns_of (fst (inspect_twice d b' (match d with DComma => comma_delim_subs | _ => default_subs end)))
+               (List.length (s_items cs)) wd ->
+  List.concat (map (toks d []) b) = List.concat (map (toks d []) b') ->
+  data_core o pw pn d b cs wd = data_core o pw pn d b' cs wd.
+Proof.
+  intros Hw Hid Hn Ht. unfold data_core. rewrite Hw. cbn [negb]. rewrite andb_false_r. cbn [andb].
+  destruct (inspect_twice d b _) as [sn subs]. destruct (inspect_twice d b' _) as [sn' subs']. cbn [fst] in Hn.
+  cbv zeta. fold (n_columns_of sn (List.length (s_items cs)) wd). fold (n_columns_of sn' (List.length (s_items cs)) wd).
+  rewrite Hn.
+  assert (E : normal_items d subs b = normal_items d subs' b').
+  { rewrite !normal_items_toks.
+    rewrite (map_ext_in (toks d subs) (toks d []) b)
+      by (intros raw Hin; apply toks_subs_irrelevant; apply Hid; apply in_or_app; left; exact Hin).
+    rewrite (map_ext_in (toks d subs') (toks d []) b')
+      by (intros raw Hin; apply toks_subs_irrelevant; apply Hid; apply in_or_app; right; exact Hin).
+    exact Ht. }
+  rewrite (normal_engine_items2 d subs subs' _ b b' E). reflexivity.
+Qed.
+
 (* the ~Other branch of step_section, as one update of the las *)
 Definition other_las (title txt : list N) (l : las) : las :=
   match second_upper title with
